@@ -15,7 +15,7 @@ from oracle.metamodel import INT_MAX, INT_MIN, UINT_MAX, UINT_MIN, MetaModel
 from oracle.pairing import all_class_decls
 
 BOUNDARY = sorted(
-    {INT_MIN - 1, INT_MIN, INT_MIN + 1, -1, 0, 1, INT_MAX - 1, INT_MAX, INT_MAX + 1, 2**32, -(2**32), 2**63, -(2**63), 7, 41713, -52391}
+    {INT_MIN - 1, INT_MIN, INT_MIN + 1, -1, 0, 1, INT_MAX - 1, INT_MAX, INT_MAX + 1, 2**32, -(2**32), 2**63, -(2**63), 7, 41713, -52391, 2**1024, -(2**1024), 10**400, -(10**400)}
 )
 
 
